@@ -1023,3 +1023,30 @@ where
         }
     }
 }
+
+// Verification hooks (compiled only with `--cfg d_engine_verif`; add-only, no behaviour change).
+// The P2 arm of `run()` split at the event boundary, so that a harness can look at the leader-change
+// watch after every single internal event while the real channel, the real `drain_internal_events` and
+// the real `handle_internal_event` (incl. its own `try_recv` draining) are used.
+#[cfg(d_engine_verif)]
+impl<T> Raft<T>
+where
+    T: TypeConfig,
+{
+    /// First half of the P2 arm: receive one pending internal event (if any) and drain the rest
+    /// into `buffered_internal_event`. Returns the number of buffered internal events.
+    pub async fn verif_internal_fill(&mut self) -> Result<usize> {
+        if let Ok(internal_event) = self.internal_event_rx.try_recv() {
+            self.buffered_internal_event.push_back(internal_event);
+            self.drain_internal_events().await?;
+        }
+        Ok(self.buffered_internal_event.len())
+    }
+
+    /// One iteration of `process_internal_events`: pop the oldest buffered internal event and
+    /// handle it. `None` when nothing is buffered.
+    pub async fn verif_internal_step(&mut self) -> Option<Result<()>> {
+        let event = self.buffered_internal_event.pop_front()?;
+        Some(self.handle_internal_event(event).await)
+    }
+}
